@@ -856,3 +856,201 @@ Proof.
   - split; [apply All_In; auto|auto].
   - apply canon_set_eq. intros c. rewrite M. cbn. tauto.
 Qed.
+
+(* ------------------------------------------------------------------ gob round trip *)
+Section cval_ind_clock.
+  Context (P : cval -> Prop).
+  Context (HD : P CDefault) (HB : forall b, P (CBool b)) (HN : forall z, P (CNum z))
+          (HS : forall s, P (CStr s))
+          (HSet : forall xs, All P xs -> P (CSet xs))
+          (HTup : forall xs, All P xs -> P (CTup xs))
+          (HFun : forall kvs, All (kvP P) kvs -> P (CFun kvs))
+          (HW : forall clk v, All (fun p => P (fst p)) clk -> P v -> P (CWrap clk v)).
+
+  Fixpoint cval_ind2 (c : cval) : P c :=
+    match c with
+    | CDefault => HD
+    | CBool b => HB b
+    | CNum z => HN z
+    | CStr s => HS s
+    | CSet xs =>
+        HSet xs ((fix go (l : list cval) : All P l :=
+                    match l with [] => I | x :: l' => conj (cval_ind2 x) (go l') end) xs)
+    | CTup xs =>
+        HTup xs ((fix go (l : list cval) : All P l :=
+                    match l with [] => I | x :: l' => conj (cval_ind2 x) (go l') end) xs)
+    | CFun kvs =>
+        HFun kvs ((fix go (l : list (cval * cval)) : All (kvP P) l :=
+                     match l with
+                     | [] => I
+                     | (k, v) :: l' => conj (conj (cval_ind2 k) (cval_ind2 v)) (go l')
+                     end) kvs)
+    | CWrap clk v =>
+        HW clk v ((fix go (l : list (cval * Z)) : All (fun p => P (fst p)) l :=
+                     match l with
+                     | [] => I
+                     | (k, n) :: l' => conj (cval_ind2 k) (go l')
+                     end) clk) (cval_ind2 v)
+    end.
+End cval_ind_clock.
+
+Lemma pairwise_ne_mid {A} (eq : A -> A -> bool) l1 x l2 :
+  pairwise_ne eq (l1 ++ x :: l2) = true -> forall y, In y l1 -> eq y x = false.
+Proof.
+  induction l1 as [|z l1 IH]; cbn; [tauto|].
+  rewrite andb_true_iff, negb_true_iff. intros [Hz Hr] y [->|Hy]; [|auto].
+  destruct (eq y x) eqn:E; auto.
+  assert (existsb (fun w => eq y w) (l1 ++ x :: l2) = true); [|congruence].
+  apply existsb_exists. exists x. split; auto. apply in_or_app. right. cbn; auto.
+Qed.
+
+Lemma cset_add_fresh l x : (forall y, In y l -> EqualC y x = false) -> cset_add l x = l ++ [x].
+Proof.
+  induction l as [|z l IH]; cbn; intros H; [reflexivity|].
+  rewrite (H z (or_introl eq_refl)). f_equal. apply IH. auto.
+Qed.
+
+Lemma cfun_add_fresh l k v : (forall y, In y (map fst l) -> EqualC y k = false) -> cfun_add l k v = l ++ [(k, v)].
+Proof.
+  induction l as [|[k' v'] l IH]; cbn; intros H; [reflexivity|].
+  rewrite (H k' (or_introl eq_refl)). f_equal. apply IH. auto.
+Qed.
+
+Lemma clock_set_fresh l k n : (forall y, In y (map fst l) -> EqualC y k = false) -> clock_set l k n = l ++ [(k, n)].
+Proof.
+  induction l as [|[k' v'] l IH]; cbn; intros H; [reflexivity|].
+  rewrite (H k' (or_introl eq_refl)). f_equal. apply IH. auto.
+Qed.
+
+Lemma fold_max_le {A} (h : A -> nat) l x : In x l -> (h x <= fold_right (fun y n => Nat.max (h y) n) 0 l)%nat.
+Proof. induction l as [|z l IH]; cbn; [tauto|]. intros [<-|H]; [lia|]. specialize (IH H). lia. Qed.
+
+Section GobProofs.
+  Context {bytes : Type} (ser : list (@gitem bytes) -> bytes) (de : bytes -> option (list (@gitem bytes))).
+  (* the assumption about encoding/gob: what an Encoder wrote, a Decoder reads back *)
+  Hypothesis de_ser : forall l, de (ser l) = Some l.
+
+  Notation enc := (enc_value ser).
+  Notation dec := (dec_value de).
+
+  Lemma dec_members_ok d xs : forall acc,
+    (forall x, In x xs -> d (enc x) = Some x) -> pairwise_ne EqualC (acc ++ xs) = true ->
+    dec_members d (map (fun x => GValue (enc x)) xs) acc = Some (acc ++ xs).
+  Proof.
+    induction xs as [|x xs IH]; intros acc Hd Hp; cbn.
+    - rewrite app_nil_r. reflexivity.
+    - rewrite (Hd x (or_introl eq_refl)).
+      rewrite cset_add_fresh by (apply (pairwise_ne_mid _ _ _ _ Hp)).
+      rewrite IH; [rewrite <- app_assoc; reflexivity|intros; apply Hd; cbn; auto|rewrite <- app_assoc; exact Hp].
+  Qed.
+
+  Lemma dec_elems_ok d xs : forall acc,
+    (forall x, In x xs -> d (enc x) = Some x) ->
+    dec_elems d (map (fun x => GValue (enc x)) xs) acc = Some (acc ++ xs).
+  Proof.
+    induction xs as [|x xs IH]; intros acc Hd; cbn.
+    - rewrite app_nil_r. reflexivity.
+    - rewrite (Hd x (or_introl eq_refl)). rewrite IH by (intros; apply Hd; cbn; auto). rewrite <- app_assoc. reflexivity.
+  Qed.
+
+  Lemma dec_fields_ok d kvs : forall acc,
+    (forall p, In p kvs -> d (enc (fst p)) = Some (fst p) /\ d (enc (snd p)) = Some (snd p)) ->
+    pairwise_ne EqualC (map fst (acc ++ kvs)) = true ->
+    dec_fields d (map (fun p => match p with (k, v) => GField (enc k) (enc v) end) kvs) acc = Some (acc ++ kvs).
+  Proof.
+    induction kvs as [|[k v] kvs IH]; intros acc Hd Hp; cbn.
+    - rewrite app_nil_r. reflexivity.
+    - destruct (Hd (k, v) (or_introl eq_refl)) as [E1 E2]. cbn in E1, E2. rewrite E1, E2.
+      rewrite map_app in Hp. cbn in Hp.
+      rewrite cfun_add_fresh by (apply (pairwise_ne_mid _ _ _ _ Hp)).
+      rewrite IH; [rewrite <- app_assoc; reflexivity|intros; apply Hd; cbn; auto|].
+      rewrite <- app_assoc, map_app. exact Hp.
+  Qed.
+
+  Lemma dec_pairs_ok d clk : forall acc,
+    (forall p, In p clk -> d (enc (fst p)) = Some (fst p)) ->
+    pairwise_ne EqualC (map fst (acc ++ clk)) = true ->
+    dec_pairs d (List.length clk)
+      (flat_map (fun p => match p with (k, n) => [GValue (enc k); GInt n] end) clk) acc = Some (acc ++ clk).
+  Proof.
+    induction clk as [|[k n] clk IH]; intros acc Hd Hp; cbn.
+    - rewrite app_nil_r. reflexivity.
+    - pose proof (Hd (k, n) (or_introl eq_refl)) as E1. cbn in E1. rewrite E1.
+      rewrite map_app in Hp. cbn in Hp.
+      rewrite clock_set_fresh by (apply (pairwise_ne_mid _ _ _ _ Hp)).
+      rewrite IH; [rewrite <- app_assoc; reflexivity|intros; apply Hd; cbn; auto|].
+      rewrite <- app_assoc, map_app. exact Hp.
+  Qed.
+
+  Lemma gob_roundtrip_fuel : forall c, cokb c = true -> forall f, (cdepth c <= f)%nat -> dec f (enc c) = Some c.
+  Proof.
+    induction c as [| x | x | x | xs IH | xs IH | kvs IH | clk v IHc IHv] using cval_ind2;
+      intros Hok f Hf; (destruct f as [|f]; [cbn in Hf; lia|]); cbn [dec_value enc_value]; rewrite de_ser; try reflexivity.
+    - (* set *)
+      rewrite de_ser. cbn in Hok. apply andb_true_iff in Hok as [Hall Hp]. rewrite forallb_forall in Hall.
+      rewrite All_In in IH. rewrite (dec_members_ok _ xs []); auto.
+      intros x Hx. apply IH; auto. cbn in Hf. pose proof (fold_max_le cdepth xs x Hx). lia.
+    - (* tuple *)
+      rewrite de_ser. cbn in Hok. rewrite forallb_forall in Hok.
+      rewrite All_In in IH. rewrite (dec_elems_ok _ xs []); auto.
+      intros x Hx. apply IH; auto. cbn in Hf. pose proof (fold_max_le cdepth xs x Hx). lia.
+    - (* function *)
+      rewrite de_ser. cbn in Hok. apply andb_true_iff in Hok as [Hall Hp]. rewrite forallb_forall in Hall.
+      rewrite All_In in IH. rewrite (dec_fields_ok _ kvs []); auto.
+      intros [k v] Hp'. specialize (IH _ Hp'). specialize (Hall _ Hp'). cbn in IH, Hall.
+      apply andb_true_iff in Hall as [Hk Hv]. destruct IH as [Ik Iv].
+      assert (Nat.max (cdepth k) (cdepth v) <= f)%nat.
+      { cbn in Hf. pose proof (fold_max_le (fun p : cval * cval => Nat.max (cdepth (fst p)) (cdepth (snd p))) kvs (k, v) Hp') as Hm.
+        cbn in Hm.
+        assert (E : fold_right (fun (p : cval * cval) (n : nat) => let (k0, v0) := p in Nat.max (Nat.max (cdepth k0) (cdepth v0)) n) 0%nat kvs
+                    = fold_right (fun y n => Nat.max (Nat.max (cdepth (fst y)) (cdepth (snd y))) n) 0%nat kvs).
+        { clear. induction kvs as [|[a b] l IHl]; cbn; auto. }
+        rewrite E in Hf. lia. }
+      cbn. split; [apply Ik|apply Iv]; auto; lia.
+    - (* causal wrapper *)
+      rewrite !de_ser. rewrite Nat2Z.id.
+      cbn in Hok. apply andb_true_iff in Hok as [Hok Hv]. apply andb_true_iff in Hok as [Hall Hp].
+      rewrite forallb_forall in Hall. rewrite All_In in IHc.
+      assert (Hd : (cdepth v <= f)%nat /\ forall p, In p clk -> (cdepth (fst p) <= f)%nat).
+      { cbn in Hf. split; [lia|]. intros p Hp'.
+        pose proof (fold_max_le (fun p : cval * Z => cdepth (fst p)) clk p Hp') as Hm. cbn in Hm.
+        assert (E : fold_right (fun (p : cval * Z) (n : nat) => let (k0, _) := p in Nat.max (cdepth k0) n) 0%nat clk
+                    = fold_right (fun y n => Nat.max (cdepth (fst y)) n) 0%nat clk).
+        { clear. induction clk as [|[a b] l IHl]; cbn; auto. }
+        rewrite E in Hf. lia. }
+      destruct Hd as [Hdv Hdc].
+      rewrite (dec_pairs_ok _ clk []); auto.
+      + rewrite IHv by auto. reflexivity.
+      + intros [k n] Hp'. cbn. apply (IHc (k, n) Hp'); [exact (Hall _ Hp')|exact (Hdc _ Hp')].
+  Qed.
+
+  (* gob round trip: a value sent through a gob encoder/decoder pair decodes to the same value —
+     in particular to an Equal one denoting the same TLA+ value — with its causal clocks *)
+  Theorem gob_roundtrip_lemma : forall c, cokb c = true ->
+    exists c', dec (cdepth c) (enc c) = Some c' /\ c' = c /\
+               canon (strip c') = canon (strip c) /\ EqualC c c' = Equal (strip c) (strip c).
+  Proof.
+    intros c Hok. exists c. split; [apply gob_roundtrip_fuel; auto|]. split; auto. split; auto.
+    apply EqualC_transparent_lemma.
+  Qed.
+End GobProofs.
+
+(* cokb c guarantees that the stripped value is a proper representation *)
+Lemma cokb_rep_ok : forall c, cokb c = true -> rep_okb (strip c) = true.
+Proof.
+  assert (PW : forall xs, pairwise_ne EqualC xs = pairwise_ne Equal (map strip xs)).
+  { induction xs as [|x xs IH]; cbn; auto. rewrite IH. f_equal. f_equal. rewrite existsb_map.
+    apply existsb_ext_in. intros y _. apply EqualC_transparent_lemma. }
+  induction c as [| x | x | x | xs IH | xs IH | kvs IH | clk v IH] using cval_ind'; cbn; auto.
+  - rewrite All_In in IH. rewrite !andb_true_iff, !forallb_forall. intros [Ha Hp]. split.
+    + intros y Hy. apply in_map_iff in Hy as (x & <- & Hx). auto.
+    + rewrite <- PW. exact Hp.
+  - rewrite All_In in IH. rewrite !forallb_forall. intros Ha y Hy. apply in_map_iff in Hy as (x & <- & Hx). auto.
+  - rewrite All_In in IH. rewrite !andb_true_iff, !forallb_forall. intros [Ha Hp]. split.
+    + intros [k' v'] Hy. apply in_map_iff in Hy as ([k v] & [= <- <-] & Hx).
+      specialize (IH _ Hx). specialize (Ha _ Hx). cbn in *. apply andb_true_iff in Ha as [Hk Hv].
+      apply andb_true_iff. destruct IH. split; auto.
+    + rewrite map_map. rewrite PW in Hp. rewrite map_map in Hp.
+      erewrite map_ext; [exact Hp|]. intros [k v]; reflexivity.
+  - rewrite !andb_true_iff. intros [_ Hv]. auto.
+Qed.
